@@ -101,7 +101,7 @@ def run(env: Any, case: dict[str, Any]) -> Any:
 def key_fn(case: dict[str, Any], label: str, item: dict[str, Any], conc: dict[str, Any]) -> str:
     mode = "plaintext" if case.get("plaintext") else ""
     cls = DOCS.finding_class(case)
-    if cls == "first-word-alone":
+    if cls in ("first-word-alone", "sentence-initial-marker"):
         label = "idempotent"  # pass 2 re-reads the block the lone word turned into
     return f"{cls}{mode}/{label}"
 
